@@ -316,6 +316,61 @@ def run_scenario(sname, setname):
     return obs
 
 
+def late_random_variable(setname):
+    """A random variable declared AFTER the default set was given to minmax() is not restricted by that set: a constraint that uses it
+    (directly, or through a decision rule adapted to it) must hold for every value of it -- or the library must refuse the model.
+    Either is accepted; silently reading the late variable as 0 is not."""
+    S = SETS[setname]
+    REJ = (RuntimeError, ValueError, TypeError, SyntaxError, IndexError)
+    out = []
+    for use in ("in-the-constraint", "through-a-decision-rule", "in-a-later-constraint-only"):
+        def setup(c, use=use):
+            m, x, w, z = _new(c)
+            cost = _nzarr(c, 2, "c")
+            zs = S(c, z)
+            m.minmax(cost @ x + w, *zs)
+            u = m.rvar()
+            k = _nz(c, "k")
+            if use == "through-a-decision-rule":
+                y = m.ldr()
+                y.adapt(u)
+                e = (x * z).sum() + y - w
+                m.st(y >= k * u)
+            else:
+                e = (x * z).sum() + k * u - w
+            if use == "in-a-later-constraint-only":
+                m.st(x <= 3, x >= -3)
+                m.do_math()                                   # a first formulation without the late variable
+            m.st(e <= 0)
+            return {"m": m, "e": e, "zs": zs}
+
+        def call(ns):
+            try:
+                return ns["m"].do_math()
+            except REJ as ex:
+                return f"rejected: {type(ex).__name__}"
+
+        def safe(ns, F):
+            if isinstance(F, str):
+                return True
+            nv = F.linear.shape[1]
+            X = arr([ctx_().fresh_real(f"X{j}_") for j in range(nv)])
+            nz = ns["m"].sup_model.vars[-1].last
+            Z = arr([ctx_().fresh_real(f"z{j}_") for j in range(nz)])
+            val = views.flat(expr_value(ns["e"], X, Z))
+            return p_implies(p_and(D.feas(F, X), in_set(ns["zs"], Z)), p_and(*[p_le(v, 0) for v in val]))
+        obs, _ = check_function("rsome.lp:RoConstr.le_to_rc", setup, call,
+                                [post("SAFE-or-refused: a random variable declared after the default set is not read as zero", safe)],
+                                mode="D", label=f"late-random-variable,{use},set={setname}", bounded=True, max_paths=400, z3_ms=60000)
+        out += obs
+    return out
+
+
+def ctx_():
+    from ..sym import ctx
+    return ctx()
+
+
 # scenario/set pairs whose direct VC is beyond a stable solver budget (z3 needs > 30 s or times out, measured
 # twice on this machine); they are NOT attempted and not claimed -- the same code paths are covered by the
 # lighter pairs, by the set lemmas below and by the row-by-row equivalence with the textbook counterpart (C02)
@@ -359,6 +414,7 @@ def jobs(tier):
             if tier == "quick" and (st not in QUICK_SETS or TIMES.get(name, 0) > 6):
                 continue
             js.append({"name": name, "kind": "scenario", "scenario": sname, "set": st})
+    js += [{"name": f"late-random-variable/{st}", "kind": "late-rvar", "set": st} for st in ("box", "ball")]
     if tier != "quick":
         for st in EXPSETS:
             js.append({"name": f"le/{st}", "kind": "scenario", "scenario": "le", "set": st})
@@ -366,4 +422,6 @@ def jobs(tier):
 
 
 def run_job(job):
+    if job.get("kind") == "late-rvar":
+        return late_random_variable(job["set"])
     return run_scenario(job["scenario"], job["set"])
